@@ -193,19 +193,19 @@ def assembler(ctx):
         None: ("shapeset.evaluate", "shapeset.evaluate", "numba_evaluate", "numba_evaluate"),
     }
     names = [unparse(call.args[k]) for k in (10, 11, 12, 13)]
-    branches = {}
     top = [s for s in fa.body if isinstance(s, ast.If) and "identifier" in unparse(s.test)]
     if len(top) != 1:
         raise AnalysisError("assemble_sparse: identifier dispatch not found")
-    cur = top[0]
-    while True:
-        key = cur.test.comparators[0].value if isinstance(cur.test, ast.Compare) and isinstance(cur.test.comparators[0], ast.Constant) else "?"
-        branches[key] = {unparse(s.targets[0]): unparse(s.value) for s in cur.body if isinstance(s, ast.Assign)}
-        if cur.orelse and isinstance(cur.orelse[0], ast.If):
-            cur = cur.orelse[0]
-        else:
-            branches[None] = {unparse(s.targets[0]): unparse(s.value) for s in cur.orelse if isinstance(s, ast.Assign)}
-            break
+    # the dispatch is executed for each operator identifier (abstract execution: operators and literal order do not matter)
+    from . import dispatch
+
+    idkey = sorted({unparse(n) for n in ast.walk(top[0].test) if isinstance(n, ast.Attribute) and n.attr == "identifier"})
+    if len(idkey) != 1:
+        raise AnalysisError("assemble_sparse: the evaluator dispatch does not test one identifier attribute")
+    branches = {}
+    for key in want:
+        effs = dispatch.effects([top[0]], {idkey[0]: key if key is not None else "l2_identity"}, "assemble_sparse")
+        branches[key] = {e[1]: e[2] for e in effs if e[0] == "set"}
     for key, (a, b, c, d) in want.items():
         br = branches.get(key)
         exp4 = ["%s.%s" % (DT, a), "%s.%s" % (D, b), "%s.%s" % (DT, c), "%s.%s" % (D, d)]
